@@ -78,6 +78,18 @@ def specSelect {α : Type} (sel : List Nat) (maxpages : Nat) (start : Nat) (page
   ((pages.zipIdx start).filter
     (fun pi => (sel.isEmpty || sel.contains pi.2) && (maxpages == 0 || pi.2 < maxpages))).map Prod.fst
 
+/-- Page `i` is wanted: `page_numbers` is `None`, or empty, or contains `i`. -/
+def wanted (pagenos : Option (List Int)) (i : Nat) : Bool :=
+  match pagenos with
+  | none => true
+  | some l => l.isEmpty || l.contains (i : Int)
+
+/-- Selection in terms of the arguments of the Python interface: page `i` is wanted when
+`page_numbers` is `None`/empty or contains `i`, and `maxpages` is 0 or above `i`. -/
+def specSelectPy {α : Type} (pagenos : Option (List Int)) (maxpages : Int) (pages : List α) : List α :=
+  ((pages.zipIdx 0).filter
+    (fun pi => wanted pagenos pi.2 && (maxpages == 0 || decide ((pi.2 : Int) < maxpages)))).map Prod.fst
+
 /-- A box given as (left, bottom, right, top). -/
 def Normalised (r : Rect) : Prop := r.1 ≤ r.2.2.1 ∧ r.2.1 ≤ r.2.2.2
 
@@ -108,7 +120,7 @@ def specRender (rotate : Int) (mb : Rect) (p : Point) : Rect × Matrix :=
 /-! ### Trees inside object graphs -/
 
 /-- References to the roots of a list of trees (what a Kids array holds). -/
-def kidRefs (ts : List PTree) : List Elem := ts.map (fun t => Elem.atom (.ref t.id))
+def kidRefs (ts : List PTree) : List Elem := ts.map (fun t => Val.atom (.ref t.id))
 
 mutual
   /-- The object graph `g` contains the tree `t`: every node's dictionary is what its reference
@@ -122,6 +134,55 @@ mutual
     | [] => True
     | t :: ts => Embeds g t ∧ EmbedsL g ts
 end
+
+/-! ### Depth-first order on arbitrary Kids graphs (shared nodes, cycles) -/
+
+/-- Own dictionary of the indirect node `n`. -/
+def nodeDict (g : Store) (n : Nat) : Dict := dictValue g (.atom (.ref n))
+
+/-- `n` is expanded by the walk: Type Pages and a Kids entry. -/
+def isPagesNode (g : Store) (n : Nat) : Bool :=
+  isName (nodeType (nodeDict g n)) "Pages" && (dget (nodeDict g n) "Kids").isSome
+
+/-- `n` is yielded by the walk. -/
+def isPageNode (g : Store) (n : Nat) : Bool :=
+  !isPagesNode g n && isName (nodeType (nodeDict g n)) "Page"
+
+/-- The Kids entries the walk iterates over at `n`. -/
+def kidsOf (g : Store) (n : Nat) : List Elem :=
+  if isPagesNode g n then listValue g ((dget (nodeDict g n) "Kids").getD (.atom .null)) else []
+
+/-- Object number of a Kids entry (a reference or an integer), if it has one. -/
+def kidId : Elem → Option Nat
+  | .atom (.ref n) => some n
+  | .atom (.int i) => if 0 ≤ i then some i.toNat else none
+  | _ => none
+
+/-- The Page nodes at the ends of all *simple* Kids paths that start at `n` and avoid the nodes `anc`
+(the nodes already on the path), path after path in Kids order: the leaf sequence of the graph
+unfolded into a tree, where a branch ends when it would come back to one of its own ancestors.
+No visited set, no state shared between branches. The budget bounds the length of a path; with
+`number of objects + 1` no simple path is cut (`C04_path_budget`). -/
+def pathLeaves (g : Store) : Nat → List Nat → Nat → List Nat
+  | 0, _, _ => []
+  | f + 1, anc, n =>
+    if anc.contains n then []
+    else if isPagesNode g n then
+      (kidsOf g n).flatMap (fun k =>
+        match kidId k with
+        | some b => pathLeaves g f (n :: anc) b
+        | none => [])
+    else if isPageNode g n then [n] else []
+
+/-- First occurrences of the elements of a list that are not in `seen`. -/
+def novel : List Nat → List Nat → List Nat
+  | _, [] => []
+  | seen, x :: xs => if seen.contains x then novel seen xs else x :: novel (x :: seen) xs
+
+/-- **Depth-first order on a graph**: the Page nodes in the order in which the depth-first
+enumeration of all simple Kids paths from the root `r` first arrives at them. On a tree this is the
+leaf order; a shared node counts where it is first met, a cycle is cut where it closes. -/
+def specOrder (g : Store) (r : Nat) : List Nat := novel [] (pathLeaves g (g.length + 1) [] r)
 
 /-! ### Unfolding an object graph (driver only) -/
 
